@@ -78,7 +78,11 @@ top:
 		if 0 < i {
 			key = append(key, '|')
 		}
-		key = append(key, da.Type...)
+		if len(da.Type) == 0 { // an unspecialized parameter is specialized on t
+			key = append(key, 't')
+		} else {
+			key = append(key, da.Type...)
+		}
 	}
 	aux.moo.Lock()
 	defer aux.moo.Unlock()
